@@ -22,7 +22,7 @@ static Case gen_case ()
 	c.seti ("ch", chn) ;
 	c.seti ("count", *rc::gen::weightedOneOf<int> ({ { 3, rangeOf<int> (0, 8) }, { 3, rc::gen::element (19, 20, 21, 22, 30, 31, 32, 33, 46, 47, 48, 49) }, { 2, rangeOf<int> (9, 80) }, { 1, rangeOf<int> (81, 200) } })) ;
 	c.seti ("seed", (long long) *seedGen ()) ;
-	c.seti ("idmode", *rangeOf<int> (0, 3)) ;	// 0 distinct 4-char ids, 1 few ids with duplicates, 2 short ids (1-3 chars), 3 mixed
+	c.seti ("idmode", *rangeOf<int> (0, 4)) ;	// 0 distinct 4-char ids, 1 few ids with duplicates, 2 short ids (1-3 chars), 3 mixed, 4 ids the reader knows (APPL, DISP, ...)
 	c.seti ("lenmode", *rangeOf<int> (0, 3)) ;	// 0 tiny 0..5, 1 odd / 4k+-1, 2 mixed up to 2 KiB, 3 a few large (up to 48 KiB)
 	c.seti ("meta", *rangeOf<int> (0, 1)) ;	// interleave string / bext sets
 	c.seti ("frames", *rc::gen::element (0, 1, 100, 1000)) ;
@@ -58,10 +58,16 @@ static Result run_case (const Case &c)
 		int im = idmode == 3 ? (int) rng.below (3) : idmode ;
 		if (im == 0) { char b [8] ; snprintf (b, sizeof (b), "%c%03d", "qxyv" [rng.below (4)], i % 1000) ; k.id = b ; }
 		else if (im == 1) k.id = few [rng.below (4)] ;
+		else if (im == 4)
+		{	// ids the container's own reader has a branch for but which carry no metadata the other checks look at (application / display chunks): accepted
+			// by sf_set_chunk like any other id, so they have to come back like any other
+			int mj = s.format & SF_FORMAT_TYPEMASK ; k.id = mj == SF_FORMAT_AIFF ? "APPL" : mj == SF_FORMAT_CAF ? (rng.below (2) ? "uuid" : "umid") : (rng.below (2) ? "DISP" : "MEXT") ;
+		}
 		else { int n = 1 + (int) rng.below (3) ; for (int j = 0 ; j < n ; j++) k.id += (char) ('k' + rng.below (10)) ; }
 		size_t len ; int lm = lenmode ;
 		if (lm == 0) len = rng.below (6) ; else if (lm == 1) { static const size_t L [] = { 1, 3, 5, 7, 9, 4095, 4097, 255, 257, 1023 } ; len = L [rng.below (10)] ; }
 		else if (lm == 2) len = rng.below (2048) ; else len = rng.below (12) == 0 ? 20000 + rng.below (28000) : rng.below (300) ;
+		if (im == 4 && rng.below (3) == 0) len = 8180 + rng.below (24) ;	// around the size above which readers skip such a chunk instead of parsing it
 		if (total + len + 16 > 90000) len = 0 ;	// hard cap; totals beyond ~48 KiB form the separate "large" class (listed finding)
 		total += len + 16 ;
 		k.data.resize (len) ; for (auto &b : k.data) b = (uint8_t) (1 + rng.below (255)) ;
@@ -193,9 +199,11 @@ static Result run_case (const Case &c)
 	}
 	if (frames && memcmp (got.data (), refaudio.data (), (size_t) frames * ch * 2) != 0)
 	{	size_t i = 0 ; while (got [i] == refaudio [i]) i ++ ; return fail ("audio_changed", "first difference at item " + std::to_string (i) + (first_part ? " (a first part of " + std::to_string ((long long) first_part) + " frames was read before the chunk queries)" : "")) ; }
+	// AIFF keeps the software string in an APPL chunk: a caller who adds APPL chunks of his own has, by that, said something about that string
+	bool appl_is_software = false ; if ((s.format & SF_FORMAT_TYPEMASK) == SF_FORMAT_AIFF) for (auto &k : want) if (k.id == "APPL") appl_is_software = true ;
 	if (meta)
 	{	MemFile a ; a.data = real.data ; MemFile b ; b.data = twin.data ; SF_INFO i1, i2 ; SNDFILE *f1 = open_read_mem (a, s, &i1), *f2 = open_read_mem (b, s, &i2) ;
-		bool same = true ; if (f1 && f2) for (int st = SF_STR_FIRST ; st <= SF_STR_LAST ; st++) { const char *x = sf_get_string (f1, st), *y = sf_get_string (f2, st) ; if ((x == nullptr) != (y == nullptr) || (x && strcmp (x, y))) same = false ; }
+		bool same = true ; if (f1 && f2) for (int st = SF_STR_FIRST ; st <= SF_STR_LAST ; st++) { if (appl_is_software && st == SF_STR_SOFTWARE) continue ; const char *x = sf_get_string (f1, st), *y = sf_get_string (f2, st) ; if ((x == nullptr) != (y == nullptr) || (x && strcmp (x, y))) same = false ; }
 		if (f1) sf_close (f1) ; if (f2) sf_close (f2) ;
 		if (!same) return fail ("other_metadata_changed", "strings differ from the twin file") ;
 	}
